@@ -68,6 +68,23 @@ where
 
         let from = stored_len * Self::SIZE_OF_T + HEADER_OFFSET;
 
+        if unlikely(expanded) {
+            // After rollback the stored length exceeds what is on disk; the missing tail
+            // lives in `updated`. Materialise it first so that pushed values land behind it.
+            let mut bytes = Vec::with_capacity((stored_len - real_stored_len) * Self::SIZE_OF_T);
+            for index in real_stored_len..stored_len {
+                match self.mut_updated().remove(&index) {
+                    Some(value) => S::write_to_vec(&value, &mut bytes),
+                    // Deleted since the rollback: the slot only has to exist.
+                    None => bytes.resize(bytes.len() + Self::SIZE_OF_T, 0),
+                }
+            }
+            self.region()
+                .truncate_write(real_stored_len * Self::SIZE_OF_T + HEADER_OFFSET, &bytes)?;
+        }
+        // The tail written above has left `updated`.
+        let has_updated_data = !self.updated().is_empty();
+
         if has_new_data {
             // Take the pushed buffer to free its heap allocation after writing.
             let taken = mem::take(self.base.mut_pushed());
@@ -95,28 +112,14 @@ where
 
         if has_updated_data {
             let updated = self.updated.take_current();
-            let region = self.region();
-
-            if unlikely(expanded) {
-                // After rollback, updates may extend beyond current disk length.
-                // Use write_at which handles extension (slower but necessary).
-                let mut bytes = Vec::with_capacity(Self::SIZE_OF_T);
-                for (index, value) in updated {
-                    let offset = index * Self::SIZE_OF_T + HEADER_OFFSET;
-                    bytes.clear();
-                    S::write_to_vec(&value, &mut bytes);
-                    region.write_at(&bytes, offset)?;
-                }
-            } else {
-                // Normal case: write directly to mmap, no intermediate allocations
-                region.batch_write_each(
-                    updated
-                        .into_iter()
-                        .map(|(index, value)| (index * Self::SIZE_OF_T + HEADER_OFFSET, value)),
-                    Self::SIZE_OF_T,
-                    S::write_to_slice,
-                );
-            }
+            // Write directly to mmap, no intermediate allocations
+            self.region().batch_write_each(
+                updated
+                    .into_iter()
+                    .map(|(index, value)| (index * Self::SIZE_OF_T + HEADER_OFFSET, value)),
+                Self::SIZE_OF_T,
+                S::write_to_slice,
+            );
         }
 
         if has_holes {
